@@ -140,6 +140,14 @@ def generate(g, tier):
             for cx in r.sample(['$STRING {}', 'VAR x {}', 'IF {}\n    STRING y', 'REPEAT {}\n    STRING y', 'WHILE {}\n    BREAKLOOP', 'FUNC f a\n    STRING x\nRUN f {}', 'DELAY {}',
                                 '$STRING ({})', 'VAR v 1\n$STRING v+{}', 'RETURN {}', 'FUNC g\n    $STRING {}\nRUN g'], 3):
                 cases.append(dict(op='compile', timeout=60, src=dict(text=cx.format(chain)), meta=dict(family='long-flat', nocorr=True)))
+    # `$` forms whose expression evaluates to an empty, blank or otherwise odd STRING, for every command of the palette (and through a
+    # variable): what a command does with an argument is checked on the evaluated text, not only on the written one
+    ODD = ['""', '" "', '"  "', '"\t"', '" x"', '"x "', '"a b"', '"a,b"', '","', '"$"', '"$x"', '"."', '".."', '"\""'.replace('\\"', "'"), '"1x"', '"-"', '"TRUE"']
+    for nm in sorted(set(palette_names())):
+        for o in r.sample(ODD, 4 if tier == 'quick' else len(ODD)):
+            body = '\n    STRING b' if nm in ('IF', 'ELIF', 'ELSE', 'WHILE', 'REPEAT', 'FOR', 'FUNC', 'FUNCTION', 'IGNORE') and g.chance(0.5) else ''
+            cases.append(dict(op='compile', src=dict(text=f'${nm} {o}{body}'), meta=dict(family='dollar-odd-string')))
+            cases.append(dict(op='compile', src=dict(text=f'VAR s {o}\n${nm} s{body}'), meta=dict(family='dollar-odd-string')))
     # known-finding probes (each costs a timeout or a deep recursion): a few per run
     cases.append(dict(op='compile', src=dict(text='$STRING 10^5000'), meta=dict(family='probe', probe='huge-int-str', nocorr=True)))
     cases.append(dict(op='compile', src=dict(text='$STRING ²'), meta=dict(family='probe', nocorr=True)))
